@@ -385,7 +385,12 @@ func c07R5(c *Ctx, rule string) {
 			}})
 			c.RequireAt(r, rule, name+":commit-latest", s.Instr, "latestIndex ∈ (old commit index, new commit index] and the value is (latest, latestIndex)", func(v engine.View) bool { return latest && v.T("above") && v.T("covered") })
 		case "(*Raft).appendEntries":
-			idx := "min(p2.LeaderCommitIndex, recv.raftState.getLastIndex())"
+			// the new commit index is whatever this handler passes to
+			// setCommitIndex (its shape is C05.R4's business)
+			idx := ""
+			for _, cs := range c.P.CallsIn(s.Fn, engine.Is("(*raftState).setCommitIndex")) {
+				idx = c.P.Arg(cs.Instr, 0)
+			}
 			r := c.Run(&engine.Automaton{Fn: s.Fn, Tracks: []engine.Track{engine.PredRel("covered", "recv.configurations.latestIndex", idx, engine.LT|engine.EQ)}})
 			c.RequireAt(r, rule, name+":commit-latest", s.Instr, "latestIndex <= the new commit index and the value is (latest, latestIndex)", func(v engine.View) bool { return latest && v.T("covered") })
 		case "NewRaft":
